@@ -285,6 +285,25 @@ def text_pairs(g, n, thorough=False):
         if r.random() < 0.2:
             eb += b'\n'
         out.append((ea, eb))
+    # a block of n lines replaced by n other lines (n = 2, 3, 4) BEHIND an insertion or a deletion: the positions of
+    # the block in the two texts differ, so a report that reads the `+` rows at the position of the `-` rows shows
+    # lines that were not added; near the top, the middle and the end, inside one hunk and in a hunk of its own
+    for n in (6, 9, 14, 30):
+        base = [b'line %02d of the text' % i for i in range(n)]
+        for shift in ('ins', 'ins2', 'del', 'del2'):
+            for blk in (2, 3, 4):
+                for pos in sorted(set([2, n // 2, n - blk])):
+                    if pos + blk > n or pos < 2:
+                        continue
+                    bb = list(base)
+                    for q in range(pos, pos + blk):
+                        bb[q] = b'changed %02d' % q
+                    if shift.startswith('ins'):
+                        bb = [b'added on top'] * (2 if shift == 'ins2' else 1) + bb
+                    else:
+                        bb = bb[(2 if shift == 'del2' else 1):]
+                    out.append((b'\n'.join(base), b'\n'.join(bb)))
+                    out.append((b'\n'.join(bb), b'\n'.join(base)))
     out += collision_text_pairs(r, thorough)
     # texts that differ only in the NUMBER of final newlines (and edits next to such an ending)
     for base in (b'hello', b'a\nb', b'', b'x\n\ny', b'{\n "k": 1\n}'):
